@@ -79,14 +79,14 @@ CHECKS = {
 # additions of build rounds 5-7 (appended to the level text of the check)
 EXTRA = {
  "C01": " Unions with four fixed right operands are operations of the cuckoo BFS (union-then-delete sequences); Extend == insert loop for the Bloom filter (all sequences to length 4-5 over 4 letters, every split, also after clear); union with an operand of another hasher / other parameters must be rejected (accepted unions are checked for false negatives); single-element cuckoo unions over every bucket x structured fingerprints for 9 width/shape combinations; l_fingerprint = 64 with the wrap-around hash u64::MAX.",
- "C02": " Real-hasher runs first (default SipHash, 5 shapes, 400 operations each: bounds and add return value). Extend == add loop (all sequences to length 4-5 over 4 letters, every split, also after clear).",
+ "C02": " u8 counters driven to the top of their type (weights 100/150/5/1, every sequence to depth 4): calls may panic once the total no longer fits, calls that return must not underestimate. Real-hasher runs first (default SipHash, 5 shapes, 400 operations each: bounds and add return value). Extend == add loop (all sequences to length 4-5 over 4 letters, every split, also after clear).",
  "C03": " (4) Exact Poisson-averaged mean of count() for b = 4..6 (thorough ..8) x 20 values of n/m: registers independent under N ~ Poisson(n), exact law of (zero registers, harmonic sum) by convolution, count() evaluated on the real sketch for every pair carrying mass; |mean| <= 1 % + 2/n for n/m >= 3 (0.35 relative_error() + 2/n below) - reads the alpha constants and bias rows of the small precisions at 1e-4 resolution.",
- "C04": " Shapes uniform / normal / ties-10 / cliff additionally with every value multiplied by a power of two up to n*max|v| = 2^1020 and down to max|v| = 2^-1000.",
+ "C04": " For tied shapes cdf is also evaluated at every distinct inserted value and compared literally with the empirical CDF. Shapes uniform / normal / ties-10 / cliff additionally with every value multiplied by a power of two up to n*max|v| = 2^1020 and down to max|v| = 2^-1000.",
  "C06": " Operands of another hasher (identical shift table) or with one parameter changed must be rejected by the documented panic, for all five operations; single-element cuckoo right operands over every bucket x structured fingerprints (widths 3..64).",
  "C08": " A real-hasher family runs and is judged first (BuildHasherSeeded 0..300 (thorough 1500) x 8 (eps, delta) cells x adversarial heavy-hitter streams x 50 unseen queries: fraction of pairs above eps*N <= delta; a finite family, not the hash space). Constructor corners: 10 epsilons x 20 deltas from the largest double below 1 down to MIN_POSITIVE incl. e^-k +- 1 ulp: documented table shape, at least one row, usable.",
  "C09": " 12 epsilon corners (just below / at / above 1/k, next to 0 and 1); trees also from counters that saw 1..3 elements and were cleared; width sweep 1..256 (thorough ..1024) by width and by epsilon = 1/width with a generator that keeps one element exactly one occurrence above the window index; a generator that closes every window on an already tracked element. Boundary comparisons are skipped only inside the derived f64 rounding envelope 8*2^-53*max(s,eps)*n.",
  "C10": " Extend == add loop (all sequences to length 5-6 over 4 letters, every split, also after clear).",
- "C11": " ReservoirSampling fed through Extend (announced iterator lengths; fresh, chunked, after clear).",
+ "C11": " LossyCounter also on streams whose windows close on an already tracked element. ReservoirSampling fed through Extend (announced iterator lengths; fresh, chunked, after clear).",
  "C12": " Unions with four fixed right operands are operations of the cuckoo BFS; differential oracle 'a failed insert / union is a no-op for every continuation of two further operations' on near-full states of both filters (no state key involved: finds state the BFS key cannot see), 10^7 continuations in quick.",
  "C13": " Real-hasher runs first (default SipHash, 4 shapes x 2 key families: len, Full only at capacity, no false negatives). One-step look-ahead from every arrival at an already known key (tables up to 4 slots quick / 8 thorough).",
  "C14": " Real-hasher runs first (default SipHash, 4 shapes x 2 key families x 2 RNG policies: len, no false negatives, deleting everything stored empties the table). Unions with four fixed right operands are operations of the BFS; one-step look-ahead from every arrival at an already known key for kick budgets <= 1 (quick) / <= 2 (thorough); l_fingerprint = 64 with the wrap-around hash u64::MAX.",
